@@ -1918,6 +1918,57 @@ fn do_type(items: &[Item], name: &str, feats: &[String]) -> std::result::Result<
                 ps.visit_item_enum_mut(&mut e2);
                 return Ok(ItemResp { ok: true, kind: "type".into(), path: name.into(), text: e2.to_token_stream().to_string(), derives, orig_norm: tnorm(e), ..Default::default() });
             }
+            Item::Trait(t) if t.ident == name && attrs_enabled(&t.attrs, feats)? => {
+                // a trait is extracted as its method SIGNATURES (attributes, doc comments and default bodies dropped; the marker
+                // supertraits Send / Sync / 'static, which Verus does not model, are dropped): impls extracted from the
+                // repository are compiled against it
+                let mut t2 = t.clone();
+                t2.attrs.clear();
+                t2.vis = parse_quote!(pub);
+                let mut sup = punctuated::Punctuated::new();
+                for b in std::mem::take(&mut t2.supertraits).into_iter() {
+                    let txt = b.to_token_stream().to_string();
+                    if txt == "Send" || txt == "Sync" || txt.starts_with('\'') {
+                        continue;
+                    }
+                    sup.push(b);
+                }
+                if sup.is_empty() {
+                    t2.colon_token = None;
+                }
+                t2.supertraits = sup;
+                let mut n_default = 0u32;
+                let mut keep = Vec::new();
+                for ti in std::mem::take(&mut t2.items) {
+                    match ti {
+                        TraitItem::Fn(mut f) => {
+                            if !attrs_enabled(&f.attrs, feats)? {
+                                continue;
+                            }
+                            f.attrs.clear();
+                            if f.default.is_some() {
+                                f.default = None;
+                                f.semi_token = Some(Default::default());
+                                n_default += 1;
+                            }
+                            keep.push(TraitItem::Fn(f));
+                        }
+                        TraitItem::Type(mut ty) => {
+                            ty.attrs.clear();
+                            keep.push(TraitItem::Type(ty));
+                        }
+                        other => keep.push(other),
+                    }
+                }
+                t2.items = keep;
+                let mut ps = PathShort { n: 0 };
+                ps.visit_item_trait_mut(&mut t2);
+                let mut rewrites = BTreeMap::new();
+                if n_default > 0 {
+                    rewrites.insert("A4.trait_default_body_dropped".to_string(), n_default);
+                }
+                return Ok(ItemResp { rewrites, ok: true, kind: "type".into(), path: name.into(), text: t2.to_token_stream().to_string(), orig_norm: tnorm(t), ..Default::default() });
+            }
             Item::Type(t) if t.ident == name => {
                 let mut t2 = t.clone();
                 t2.attrs.clear();
